@@ -166,14 +166,21 @@ func execLaw(f []string) h.Result {
 	p := tcell.NewVerifParser(ti, cs, 80, 24)
 	first := map[string]string{}
 	count := map[string]int{}
-	fail := func(law string, c mbChar, format string, a ...interface{}) {
+	// l > 0: append what the decoder itself answers for b[:l] (only computed for the first failure of a law)
+	fail := func(law string, c mbChar, l int, format string, a ...interface{}) {
 		count[law]++
 		if _, ok := first[law]; !ok {
 			first[law] = fmt.Sprintf("%s %s (U+%04X): ", cs, h.Hex(c.enc), c.r) + fmt.Sprintf(format, a...)
+			if l > 0 {
+				first[law] += fmt.Sprintf("; decoder.Transform(utf, b[:%d], atEOF=true) = %v, with atEOF=false = %v", l, rawDecode(d, c.enc[:l], true), rawDecode(d, c.enc[:l], false))
+			}
 		}
 	}
-	diag := func(c mbChar, l int) string {
-		return fmt.Sprintf("decoder.Transform(utf, b[:%d], atEOF=true) = %v, with atEOF=false = %v", l, rawDecode(d, c.enc[:l], true), rawDecode(d, c.enc[:l], false))
+	// after a failure: let the escape timer expire so that nothing stays buffered for the next character
+	flush := func() {
+		if _, left := p.Feed(nil, true); left != 0 {
+			p = tcell.NewVerifParser(ti, cs, 80, 24)
+		}
 	}
 	checked, c1 := 0, 0
 	for _, c := range chars {
@@ -183,13 +190,13 @@ func execLaw(f []string) h.Result {
 		}
 		checked++
 		if c.enc[0] < 0x80 {
-			fail("high", c, "encoding starts with a 7-bit byte")
+			fail("high", c, 0, "encoding starts with a 7-bit byte")
 		}
 		if len(c.enc) > 4 {
-			fail("bounded", c, "encoding longer than 4 bytes")
+			fail("bounded", c, 0, "encoding longer than 4 bytes")
 		}
 		if c.r < 0x20 || c.r == 0x7f {
-			fail("printable", c, "decodes to a control character")
+			fail("printable", c, 0, "decodes to a control character")
 		}
 		want := fmt.Sprintf("K.%d.%d.0", int(tcell.KeyRune), int(c.r))
 		// one byte per read
@@ -199,24 +206,24 @@ func execLaw(f []string) h.Result {
 			se := showEvs(evs)
 			if i < len(c.enc)-1 {
 				if len(se) != 0 || left != i+1 {
-					fail("short", c, "after the first %d of %d bytes the parser delivered %v and kept %d bytes buffered (must wait for the rest); %s", i+1, len(c.enc), se, left, diag(c, i+1))
+					fail("short", c, i+1, "after the first %d of %d bytes the parser delivered %v and kept %d bytes buffered (must wait for the rest)", i+1, len(c.enc), se, left)
 					ok = false
 				}
 			} else if len(se) != 1 || se[0] != want || left != 0 {
-				fail("full", c, "bytes fed one per read: the last byte gave %v (+%d buffered), want [%s]; %s", se, left, want, diag(c, len(c.enc)))
+				fail("full", c, len(c.enc), "bytes fed one per read: the last byte gave %v (+%d buffered), want [%s]", se, left, want)
 				ok = false
 			}
 		}
 		if !ok {
 			// the one-read check would only repeat the same failure
-			p = tcell.NewVerifParser(ti, cs, 80, 24)
+			flush()
 			continue
 		}
 		evs, left := p.Feed(c.enc, false)
 		se := showEvs(evs)
 		if len(se) != 1 || se[0] != want || left != 0 {
-			fail("full", c, "whole encoding in one read gave %v (+%d buffered), want [%s]; %s", se, left, want, diag(c, len(c.enc)))
-			p = tcell.NewVerifParser(ti, cs, 80, 24)
+			fail("full", c, len(c.enc), "whole encoding in one read gave %v (+%d buffered), want [%s]", se, left, want)
+			flush()
 		}
 	}
 	res := h.Result{Nontrivial: checked > 0, Tags: []string{"law", "law:" + cs}}
@@ -401,7 +408,7 @@ func c11Pool(cs string) []mbChar {
 	} else if cd := newCodec(cs); cd != nil {
 		d := tcell.GetEncoding(cs).NewDecoder()
 		if !isMulti(cs) {
-			for b := 0xA0; b < 0x100; b++ {
+			for b := 0x80; b < 0x100; b++ { // KOI8 has box-drawing characters at 0x80..0x9F; C1 controls are filtered by rune
 				enumChars(d, []byte{byte(b)}, func(c mbChar) {
 					if inOracleDomain(c.r) {
 						pool = append(pool, c)
@@ -588,8 +595,10 @@ func genText(g *h.Gen) {
 				g.Emit("text law xterm-256color%s %s %02x", v, cs, b)
 			}
 		}
-		for _, cs := range textMulti {
-			g.Emit("text law vt100%s %s -", v, cs)
+		for _, cs := range textMulti { // an entry without mouse / paste / focus support
+			if cs != "GB18030" {
+				g.Emit("text law vt100%s %s -", v, cs)
+			}
 		}
 	} else {
 		for _, cs := range all {
